@@ -24,6 +24,8 @@ def _factory():
                 m = await receive()
                 entry["msgs"].append(m["type"])
                 await send({"type": "websocket.accept"})
+                if scope["raw_path"] == b"/lazy":
+                    await env.sleep(1.0)  # does not read for a while: the server has to hold back what the client sends
                 while True:
                     m = await receive()
                     entry["msgs"].append((m["type"], m.get("text"), m.get("bytes"), m.get("code")))
@@ -72,7 +74,8 @@ def _ws_flight():
 
 FAMILIES = ["HTTP/1.1 pipeline of three requests", "HTTP/1.1 chunked POST then EOF (half-close)", "HTTP/2 two streams", "WebSocket session", "HTTP/1 garbage after a request",
             "HTTP/1.0 request", "slow request then reset", "HTTP/2 request and PING while the client is not reading for 2 s, read_timeout 1 s",
-            "HTTP/1.1 pipeline behind a request that takes 2.5 s, read_timeout 1 s"]
+            "HTTP/1.1 pipeline behind a request that takes 2.5 s, read_timeout 1 s",
+            "WebSocket: 14 messages and a ping while the application does not read for 1 s (more than max_app_queue_size)"]
 
 
 def _data(fi: int):
@@ -93,6 +96,8 @@ def _data(fi: int):
         c.request(1, b"GET", b"/slow", end_stream=True)  # answered after 1 s: the write parked first is the reader's own (SETTINGS/PING acknowledgement)
         c.conn.ping(b"12345678")
         return c.take()
+    if fi == 9:
+        return ws_h1_handshake(path=b"/lazy")
     if fi == 8:
         return h1_request("GET", b"/a", [HOSTH]) + h1_request("GET", b"/slower", [HOSTH]) + h1_request("GET", b"/c", [HOSTH]) + h1_request("GET", b"/d", [HOSTH, (b"Connection", b"close")])
     return h1_request("GET", b"/slow", [HOSTH])
@@ -119,7 +124,27 @@ _LEN = [len(_data(i)) for i in range(len(FAMILIES))]
 STRIDE = 12 if QUICK else 1
 
 
-def _norm(obs, factory):
+def _ws_frames(data: bytes):
+    """Server-to-client WebSocket frames (unmasked) of one snapshot, as a sorted list: frames written by different
+    tasks within the same instant (a pong by the reader, echoes by the application) have no specified order."""
+    frames, i = [], 0
+    while i + 2 <= len(data):
+        n = data[i + 1] & 0x7F
+        hdr = 2
+        if n == 126:
+            n, hdr = int.from_bytes(data[i + 2:i + 4], "big"), 4
+        elif n == 127:
+            n, hdr = int.from_bytes(data[i + 2:i + 10], "big"), 10
+        frames.append(bytes(data[i:i + hdr + n]))
+        i += hdr + n
+    return sorted(frames)
+
+
+def _norm(obs, factory, ws_unordered: bool = False):
+    if ws_unordered:
+        for s in obs["snaps"]:
+            if s["out"] and not s["out"].startswith(b"HTTP/"):
+                s["out"] = _ws_frames(s["out"])
     snaps = [(s["label"] if not isinstance(s["label"], tuple) else tuple(s["label"][:2]), round(s["t"], 6), s["out"], None if s["closed_at"] is None else round(s["closed_at"], 6), s["handler_done"])
              for s in obs["snaps"]]
     return {
@@ -139,7 +164,7 @@ def _norm(obs, factory):
     witnesses=[{"fi": 0, "cut": 2, "end": 0}, {"fi": 2, "cut": 3, "end": 1}, {"fi": 3, "cut": 2, "end": 2}],
     budget={"quick": 300, "thorough": 1800},
     per_path=240,
-    bounds="9 session families (HTTP/1.1 pipeline incl. a slow request and Connection: close, chunked upload + half-close, HTTP/2 with two streams, WebSocket session, garbage after a request, HTTP/1.0, slow request then reset, HTTP/2 request + PING against a client that stops reading for longer than read_timeout, HTTP/1.1 pipeline parked behind a request that takes longer than read_timeout) x every two-way split of the client's first flight (quick: every 12th offset) x ending {keep waiting 7 s, EOF after 0.5 s, reset after 0.5 s, half-close instead of the rest of the flight, reset instead of the rest}; identical actions on both workers",
+    bounds="10 session families (HTTP/1.1 pipeline incl. a slow request and Connection: close, chunked upload + half-close, HTTP/2 with two streams, WebSocket session, garbage after a request, HTTP/1.0, slow request then reset, HTTP/2 request + PING against a client that stops reading for longer than read_timeout, HTTP/1.1 pipeline parked behind a request that takes longer than read_timeout, a WebSocket client sending more messages than the application queue holds while the application is not reading) x every two-way split of the client's first flight (quick: every 12th offset) x ending {keep waiting 7 s, EOF after 0.5 s, reset after 0.5 s, half-close instead of the rest of the flight, reset instead of the rest}; identical actions on both workers",
     encodes=["hypercorn/asyncio/tcp_server.py::TCPServer.run", "hypercorn/trio/tcp_server.py::TCPServer.run", "hypercorn/asyncio/tcp_server.py::TCPServer.protocol_send", "hypercorn/trio/tcp_server.py::TCPServer.protocol_send",
              "hypercorn/asyncio/task_group.py::TaskGroup.spawn_app", "hypercorn/trio/task_group.py::TaskGroup.spawn_app", "hypercorn/asyncio/worker_context.py::EventWrapper.wait", "hypercorn/trio/worker_context.py::EventWrapper.wait"],
     stubs=["tier C runtimes (virtual asyncio loop / trio MockClock)", "wall clock pinned so that the date header is identical"],
@@ -162,6 +187,8 @@ def worker_differential(fi: int, cut: int, end: int) -> bool:
     if cut:
         acts.append(("feed", data[:cut]))
         acts.append(("sleep", 0.25))
+    if end >= 3 and fi == 7:
+        return done(True, skipped="a client that stops reading and never reads again: how long close() lingers on unsent data is the transport's business (asyncio waits for the flush, trio closes the socket)")
     if end >= 3:
         # the client gives up in the middle of its first flight: half-close (3) or reset (4) instead of the rest
         acts.append(("eof",) if end == 3 else ("reset",))
@@ -170,7 +197,7 @@ def worker_differential(fi: int, cut: int, end: int) -> bool:
         for flavour in ("asyncio", "trio"):
             factory = _factory()
             obs = _run(fi, flavour, factory, acts)
-            results[flavour] = _norm(obs, factory)
+            results[flavour] = _norm(obs, factory, ws_unordered=fi == 9)
         a, t = results["asyncio"], results["trio"]
         why = ""
         for key in ("app", "closed_at", "handler_done", "handler_error", "snaps"):
@@ -185,6 +212,13 @@ def worker_differential(fi: int, cut: int, end: int) -> bool:
         acts.append(("feed", _ws_flight()[1]))
         acts.append(("sleep", 0.1))
         acts.append(("feed", _ws_flight()[2]))
+    if fi == 9:
+        ws = WSClient()
+        acts.append(("sleep", 0.1))
+        acts.append(("feed", b"".join(ws.send_text("m%02d" % i) for i in range(14)) + ws.send_ping(b"are-you-there")))
+        acts.append(("sleep", 0.5))
+        acts.append(("sleep", 1.0))
+        acts.append(("feed", ws.send_close(1000)))
     if fi == 6:
         acts.append(("sleep", 0.5))
         acts.append(("reset",))
@@ -201,7 +235,7 @@ def worker_differential(fi: int, cut: int, end: int) -> bool:
     for flavour in ("asyncio", "trio"):
         factory = _factory()
         obs = _run(fi, flavour, factory, acts)
-        results[flavour] = _norm(obs, factory)
+        results[flavour] = _norm(obs, factory, ws_unordered=fi == 9)
     a, t = results["asyncio"], results["trio"]
     why = ""
     for key in ("app", "closed_at", "handler_done", "handler_error", "snaps"):
